@@ -550,7 +550,11 @@ func init() {
 			if c, ok := a[0].(int64); ok {
 				return math.Inf(int(c))
 			}
-			panic(unsupported("math.Inf symbolic sign"))
+			F := m.F()
+			if m.branch(F.BVSle(F.BVConst(0, 64), a[0].(*Sym).T)) {
+				return math.Inf(1)
+			}
+			return math.Inf(-1)
 		},
 
 		// ---- errors ----
